@@ -13,7 +13,8 @@ def main():
     prog = load_program()
     chk.repo_hash = prog.repo_hash
     chk.assumptions += COMMON_ASSUMPTIONS
-    for T in tr.all_transitions():
+    import checks.htransitions as ht
+    for T in tr.all_transitions() + [ht.AckH(), ht.ModAckH()]:
         if T.kind in ('create-topic', 'create-sub', 'create-snapshot', 'delete-topic'):
             continue     # do not touch deliveries at all (covered by C02 independence)
         fs = [O.c03_finality]
